@@ -24,7 +24,15 @@ PROP = "C14"
 LEGACY = {"seed", "rand", "randn", "random", "random_sample", "randint", "normal", "uniform", "standard_normal", "choice", "shuffle", "permutation", "exponential", "gamma", "beta", "binomial", "poisson", "get_state", "set_state", "sample", "ranf", "bytes", "multivariate_normal", "integers"}
 
 
-def rule_r1(rep, program: Program):
+def rule_r1(rep, program: Program, derivation: bool = True):
+    if not derivation:
+        # the derivation inside _get_per_chain_rngs and its use in sample_chains are decided by the abstract runs (R6);
+        # what remains structural is the class-level part: draws from the base generator and repeated derivations in the
+        # sampler classes
+        r = rep.rule("R1", "per-chain generators: nothing draws from the base generator once per chain before the derivation, and the streams are derived once per run [the derivation itself is decided by the abstract runs (R6)]", floor=1)
+        r.inst({"derivation": "decided by abstract runs (R6)"})
+        _r1_class_level(r, program)
+        return r
     r = rep.rule("R1", "per-chain generators: jump/spawn argument depends injectively on the chain index", floor=2)
     f = program.func("samplers", "_get_per_chain_rngs")
     comps = [n for n in ast.walk(f.node) if isinstance(n, ast.ListComp)]
@@ -91,6 +99,11 @@ def rule_r1(rep, program: Program):
         loops = [n for n in ast.walk(sc.node) if isinstance(n, ast.For) and any(x is uses[0] for x in ast.walk(n))]
         if loops:
             r.violate(PROP, "sample_chains:per_chain_rngs-in-loop", "per-chain generators are re-derived inside a loop: the same streams are replayed", node=uses[0], file=sc.file)
+    _r1_class_level(r, program)
+    return r
+
+
+def _r1_class_level(r, program: Program):
     # chain-count independence of the base generator: `jumped(i)` is relative to the base
     # generator's *current* state, so nothing may draw from it a chain-count dependent number of
     # times before the derivation (the derivation itself is the last statement group of R1 above)
@@ -169,8 +182,6 @@ def rule_r1(rep, program: Program):
         if len(derivs) > 1:
             b, c = derivs[0]
             r.violate(PROP, f"{k.name}.sample_chains:streams-derived-{len(derivs)}-times", f"one {k.name}.sample_chains call derives the per-chain generators {len(derivs)} times ({', '.join(x.qualname for x, _ in derivs)}) from a base generator that is not advanced in between: both derivations yield the same streams, so the numbers drawn from the first set (e.g. the initial momenta) are drawn again by the chains - a stream is replayed within a run", node=c, file=b.file)
-    return r
-
 
 def rule_r2(rep, program: Program):
     r = rep.rule("R2", "no ambient randomness or wall-clock dependence in src/mici", floor=15)
@@ -595,10 +606,12 @@ def run(rep, program: Program, tier: str) -> None:
         "and value-flow of generator state across the pickle boundary of multi-process sampling."
     )
     rep.assumptions = ["races inside NumPy / the OS are not this code", "bit_generator.state is the complete state of a NumPy bit generator (NumPy contract)"]
-    rep.isolate(rule_r1, rep, program)
+    from . import samplersim
+
+    rep.isolate(rule_r1, rep, program, derivation=not samplersim.available(program, tier))
     rep.isolate(rule_r2, rep, program)
-    rep.isolate(rule_r3, rep, program)
-    rep.isolate(rule_r4, rep, program)
+    samplersim.superseded(rep, program, tier, [("R3", "worker outputs are restored to chain-index order before collation; the index travels with arguments and results")], "R6", rule_r3, rep, program)
+    samplersim.superseded(rep, program, tier, [("R4", "generator state advanced in worker copies is written back, complete and unmodified, to the parent's per-chain generators")], "R6", rule_r4, rep, program)
     rep.isolate(rule_r5, rep, program)
     from . import samplersim
 
